@@ -100,14 +100,40 @@ def ast_shape(code):
     return ast.dump(_Blank().visit(tree))
 
 
+def tok_shape(code):
+    """Python token sequence with string/number constants and VAR_/_lambda_ identifier tails blanked; comments are kept:
+    program text that leaks into a comment is program text outside a constant."""
+    import io
+    import tokenize
+
+    out = []
+    for t in tokenize.generate_tokens(io.StringIO(code).readline):
+        if t.type == tokenize.STRING:
+            out.append("S")
+        elif t.type == tokenize.NUMBER:
+            out.append("N")
+        elif t.type == tokenize.NAME:
+            out.append(_Blank._id(t.string))
+        elif t.type == tokenize.COMMENT:
+            out.append("#comment")
+        elif t.type in (tokenize.NL, tokenize.NEWLINE, tokenize.INDENT, tokenize.DEDENT, tokenize.ENDMARKER):
+            out.append(tokenize.tok_name[t.type])
+        else:
+            out.append(t.string)
+    return out
+
+
 def ast_confirm(out, ref):
-    """The property's own observation, concretely (this realises `out`): compile and compare the AST with the benign
-    payload's, constants and VAR_/_lambda_ identifier tails blanked. True = no violation (also when `out` cannot compile)."""
+    """The property's own observation, concretely (this realises `out`): compile and compare the AST and the token sequence with
+    the benign payload's, constants and VAR_/_lambda_ identifier tails blanked. True = no violation (also when `out` cannot compile)."""
     try:
         s1 = ast_shape(out)
-    except (SyntaxError, ValueError):
+        t1 = tok_shape(out)
+    except (SyntaxError, ValueError, IndentationError):
         return note("output cannot compile: nothing is returned that could run")
-    return s1 == ast_shape(ref)
+    except Exception:  # tokenize.TokenError
+        return note("output cannot be tokenised")
+    return s1 == ast_shape(ref) and t1 == tok_shape(ref)
 
 
 def code_ok(out, ref, sentinel, kind):
